@@ -1176,7 +1176,7 @@ static int dd_special_name(struct demangle_data *dd)
 		return -1;
 
 	if (c0 == 'T') {
-		if (strchr(T_type, c1)) {
+		if (c1 && strchr(T_type, c1)) {
 			int idx;
 			char *p;
 
